@@ -63,6 +63,7 @@ Definition low_src (o : addsrc) (st : lst) : res (list instr * rop * list nat * 
       let* (t, st1) := take st in
       Ok ([ILoad (R t) b jx'], PReg (R t), [t], st1)
   | ALoop v => match alook v (l_lv st) with Some r => Ok ([], PReg (R r), [], st) | None => Err EIll end
+  | AReg r => match rf_lookup r st with Some m => Ok ([], PReg m, [], st) | None => Err EIll end
   end.
 
 Definition add_instr (d x : reg) (y : rop) (m : option Z) : instr :=
